@@ -528,14 +528,14 @@ fn main() {
             }
         }
         let ns = shapes.len() as u64;
-        let per = run.tier(2_500u64, 60_000u64);
+        let per = run.tier(2_500u64, 1_500_000u64);
         run.generate("all-stack-shapes-native-parent", ns * per, false, 0.3, |ctx, idx, rng| {
             history::<NativeTarget<Rgb565>>(ctx, rng, Conv::None, Some(shapes[(idx % ns) as usize].clone()));
         });
         run.generate("all-stack-shapes-default-fill-parent", ns * per, false, 0.3, |ctx, idx, rng| {
             history::<IterTarget<Rgb565>>(ctx, rng, Conv::None, Some(shapes[(idx % ns) as usize].clone()));
         });
-        let nc = run.tier(40_000u64, 1_000_000u64);
+        let nc = run.tier(40_000u64, 20_000_000u64);
         run.generate("color-converted", nc, false, 0.3, |ctx, idx, rng| {
             let conv = if idx % 2 == 0 { Conv::Outer } else { Conv::Inner };
             if idx % 4 < 2 {
